@@ -362,7 +362,7 @@ def dea_table(ctx, ex):
             floor_problems = []
             from ..engine import budget
             try:
-              with budget(60, 'Dea table limexp=%d' % limexp):
+              with budget(30 if ctx.tier == 'quick' else 90, 'Dea table limexp=%d' % limexp):
                 for n in range(nterms):
                     val, err = obj(s[n])
                     if n < 2:
@@ -425,7 +425,7 @@ def dea_floor_all_outcomes(ctx, ex):
                 pass                      # the index bound is R-DEA-CAP's clause; judge the terms returned before
             return out
         try:
-            with budget(120, 'Dea floor limexp=%d' % limexp):
+            with budget(40, 'Dea floor limexp=%d' % limexp):
                 exr.run(body)
         except AnalysisError as exc:
             rep.undecided('R-DEA-FLOOR', 'extrapolation.Dea.__call__', exc, 'limexp=%d/all guard outcomes' % limexp)
